@@ -41,6 +41,7 @@ type Analysis struct {
 	// registry facts
 	RegistryStartup bool     // no non-init function of the module (outside tests) mutates the checksum registry
 	RegistryMutCall []string // offending call sites otherwise
+	fixedSizes      map[string][2]int64
 	mu              sync.Mutex
 	gfOnce          sync.Once
 	gf              *globalFactsT
@@ -91,7 +92,79 @@ func (a *Analysis) engineFor(root *ssa.Function) *Engine {
 	e := NewEngine(a.P)
 	e.IsCodecMethod = func(f *ssa.Function) bool { return f != root && a.U.IsCodecMethod(f) }
 	e.NonNilGlobals = a.nonNilErrGlobals()
+	e.ObjSize = func(ev *Event) (int64, bool) {
+		if ev.Callee == nil || ev.ObjType == nil {
+			return 0, false // a dynamic part: its type, and so its size, is not fixed
+		}
+		ct := a.U.TypeOf(ev.ObjType)
+		if ct == nil || ct.Encode == root || ct.Decode == root {
+			return 0, false
+		}
+		return a.fixedWireSize(ct, 0)
+	}
 	return e
+}
+
+// fixedWireSize: the number of bytes every value of the codec type occupies on the wire, when its layout consists of
+// numbers, fixed-width texts and nested parts of fixed size only – and Encode and Decode agree on it.
+func (a *Analysis) fixedWireSize(ct *CodecType, depth int) (int64, bool) {
+	if depth > 4 {
+		return 0, false
+	}
+	a.mu.Lock()
+	if a.fixedSizes == nil {
+		a.fixedSizes = map[string][2]int64{}
+	}
+	if v, ok := a.fixedSizes[ct.Name]; ok {
+		a.mu.Unlock()
+		return v[0], v[1] == 1
+	}
+	a.fixedSizes[ct.Name] = [2]int64{0, 0} // (cycles: unknown)
+	a.mu.Unlock()
+	size := func(l *Layout) (int64, bool) {
+		var n int64
+		for _, f := range l.Fields {
+			switch f.Kind {
+			case "int":
+				b := typeBytes(f.Type)
+				if b == 0 {
+					return 0, false
+				}
+				n += b
+			case "fixed":
+				if f.Width <= 0 {
+					return 0, false
+				}
+				n += f.Width
+			case "obj":
+				sub := a.U.TypeByName[f.Obj]
+				if sub == nil {
+					return 0, false
+				}
+				k, ok := a.fixedWireSize(sub, depth+1)
+				if !ok {
+					return 0, false
+				}
+				n += k
+			default:
+				return 0, false
+			}
+		}
+		return n, true
+	}
+	tl := a.Layouts(ct)
+	res := [2]int64{0, 0}
+	if tl.EncMain != nil && tl.DecMain != nil && len(tl.Problems) == 0 && len(tl.EncAll) == 1 {
+		ne, ok1 := size(tl.EncMain.Layout)
+		nd, ok2 := size(tl.DecMain.Layout)
+		if ok1 && ok2 && ne == nd {
+			res = [2]int64{ne, 1}
+		}
+	}
+	a.mu.Lock()
+	a.fixedSizes[ct.Name] = res
+	a.mu.Unlock()
+	return res[0], res[1] == 1
 }
 
 // registryMiss: path took the not-found arm of a registry lookup with a constant name.
@@ -368,7 +441,7 @@ func (a *Analysis) encLayout(ct *CodecType, p *Path) *PathLayout {
 		src := stripSameWidth(f.Ev[0].Src)
 		f.Algo = calcAlgo(src)
 		for idx, st := range stores {
-			if st.Src.Key() == src.Key() {
+			if st.Src.Key() == src.Key() || stripSameWidth(st.Src).Key() == src.Key() { // (the field may have a named number type)
 				f.GoField, f.Name = idx, c.fieldName(idx)
 			}
 		}
@@ -570,7 +643,7 @@ func (a *Analysis) decLayout(ct *CodecType, p *Path) *PathLayout {
 			if sz == 1 {
 				ord = ""
 			}
-			ts = append(ts, tile{lo, sz, &FieldLayout{Kind: "int", Type: typeStr(it), Order: ord, Name: c.fieldName(idx), GoField: idx, Pos: rootPos(ev), Ev: []*Event{ev}, WireIDs: []int{ev.ID}}})
+			ts = append(ts, tile{lo, sz, &FieldLayout{Kind: "int", Type: wireTypeStr(it), Order: ord, Name: c.fieldName(idx), GoField: idx, Pos: rootPos(ev), Ev: []*Event{ev}, WireIDs: []int{ev.ID}}})
 		}
 		if os.Getenv("FPDEBUG") == "tiles" {
 			for _, t := range ts {
